@@ -6,6 +6,7 @@ Driver ops of C13 (answers of the MODEL; the harness prints the same lines with 
   svm <P> <cmd>...   cmds: new <off> <nblocks> <R1> <R2> | blk <positions> | skip <k> | rehash <R1> <R2> | dumplo
   svt / svl <nblocks> <adds> <adds2|x> <queries>
   sv_cof <P> <x> <facs> <maxlarge> <double> [<hint p,q | none>]
+  sv_fbm <P>         idx_by_log as FBase::new computes it for the primes P (replay of an `sv_fb` answer)
 -/
 namespace Ymq.Drv
 open Ymq.Sieve
@@ -128,6 +129,9 @@ def handleSieve : Handler
         String.join (bks.map fun b => " | " ++ showPairs b))
     if a2 ≠ "x" ∧ (parsePairs a2).isNone then none else
     some (r.getD "panic")
+  | ["sv_fbm", ps] => do
+    let ps ← parseNatList ps
+    some (match fbaseIbl ps with | none => "panic" | some a => showList a.toList)
   | "sv_cof" :: ps :: x :: facs :: maxlarge :: dbl :: hint => do
     let ps ← parseNatList ps; let x ← parseInt x; let facs ← parseNatList facs
     let maxlarge ← parseNat maxlarge
